@@ -401,6 +401,10 @@ class MetadorGroup(MetadorNode):
     def __len__(self):
         return len(list(self.keys()))
 
+    def __reversed__(self):
+        # (wrapt would pass this special method through to the raw group)
+        return reversed(list(self.keys()))
+
     def __contains__(self, name: str):
         self._guard_path(name)
         if name[0] == "/" and self.name != "/":
